@@ -58,9 +58,30 @@ func popChainRoot(v ssa.Value) (root *ssa.Call, wheres []*ssa.Call) {
 			}
 			return c, wheres
 		}
+		// a helper of the repository that returns the query it builds (one return): the chain goes on in it
+		if sc := c.Common().StaticCallee(); sc != nil && sc.Blocks != nil && obj.Name() != "queryWithNetwork" && core.FuncPkg(sc) != nil && core.IsKeto(core.FuncPkg(sc)) &&
+			sc.Signature.Results().Len() == 1 && core.IsNamed(derefT(sc.Signature.Results().At(0).Type()), "github.com/gobuffalo/pop/v6", "Query") {
+			var rets []*ssa.Return
+			core.Instrs(sc, func(_ *ssa.BasicBlock, _ int, ins ssa.Instruction) {
+				if ret, ok := ins.(*ssa.Return); ok {
+					rets = append(rets, ret)
+				}
+			})
+			if len(rets) == 1 && len(rets[0].Results) == 1 {
+				v = rets[0].Results[0]
+				continue
+			}
+		}
 		return c, wheres
 	}
 	return nil, wheres
+}
+
+func derefT(t types.Type) types.Type {
+	if pt, ok := t.Underlying().(*types.Pointer); ok {
+		return pt.Elem()
+	}
+	return t
 }
 
 func modelTable(p *core.Program, v ssa.Value) string {
